@@ -79,7 +79,18 @@ class G:
     def first_template(self, ev):
         s, ms = self.seq(ev)
         m = self.pick(ms)
-        val = f"{s}.First().{m}()" if self.d(st.booleans()) else f"{s}.Select(lambda f: f.{m}() * 2).First()"
+        how = self.d(st.integers(0, 4))
+        if how <= 1:
+            val = f"{s}.First().{m}()"
+        elif how == 2:
+            val = f"{s}.Select(lambda f: f.{m}() * 2).First()"
+        else:
+            # the value does not depend on the element: First() must still be undefined on an empty (filtered) sequence
+            acc2, banks2 = self.p["coll"]
+            b2 = self.pick(banks2)
+            self.uses.append((acc2, b2))
+            val = f"{s}.Select(lambda f: {self.const()}).First()" if how == 3 else f"{s}.Select(lambda f: {ev}.{acc2}({b2!r}).Count()).First()"
+            self.labels.add("First-of-element-independent-value")
         g = self.guard(["none", "ifexp", "ifexp-else", "and", "or", "ifexp-insufficient", "ifexp-nested", "none"])
         self.labels.add("First:" + g)
         c = self.const()
@@ -150,6 +161,10 @@ class G:
         if self.d(st.booleans()):
             s = f"{s}.Where(lambda t: t.{self.pick(ms)}() > {self.const()})"
         val = f"{s}.First().{m}()"
+        if self.d(st.integers(0, 2)) == 0:
+            # the value comes from the enclosing loop only
+            val = f"{s}.Select(lambda t: {obj}.{self.pick(self.p['num'])}()).First()"
+            self.labels.add("First-of-element-independent-value")
         g = self.guard(["none", "ifexp", "ifexp-else", "and", "or"])
         self.labels.add("sub-First:" + g)
         c = self.const()
@@ -161,6 +176,27 @@ class G:
             return f"({c} if {s}.Count() == 0 else {val})", f"({c} if False else {val})"
         if g == "or":
             return f"({s}.Count() == 0 or {val} > {c})", f"(False or {val} > {c})"
+        return f"({s}.Count() > 0 and {val} > {c})", f"(True and {val} > {c})"
+
+
+    def cross_first_template(self, obj, ev="e"):
+        """First() over another event collection (usually filtered) inside the loop over the main one; the value may come from the outer element only"""
+        acc, banks, ms = self.p["other"]
+        b = self.pick(banks)
+        self.uses.append((acc, b))
+        s = f"{ev}.{acc}({b!r})"
+        if self.d(st.integers(0, 3)) > 0:
+            s = f"{s}.Where(lambda t: t.{self.pick(ms)}() > {self.const()})"
+            self.labels.add("Where-then-partial")
+        n = self.pick(self.p["num"])
+        val = self.pick([f"{s}.Select(lambda t: {obj}.{n}()).First()", f"{s}.Select(lambda t: {obj}.{n}()).First()", f"{s}.Select(lambda t: t.{self.pick(ms)}() + {obj}.{n}()).First()"])
+        g = self.guard(["none", "ifexp", "and", "none"])
+        self.labels.add("cross-First:" + g)
+        c = self.const()
+        if g == "none":
+            return val, None
+        if g == "ifexp":
+            return f"({val} if {s}.Count() > 0 else {c})", f"({val} if True else {c})"
         return f"({s}.Count() > 0 and {val} > {c})", f"(True and {val} > {c})"
 
 
@@ -183,8 +219,8 @@ def cases(draw, backend):
             else:
                 # a 1-D column of per-object partial values, possibly guarded by a Where
                 s, ms = g.seq("e", main_only=True)
-                t = draw(st.sampled_from(["index", "link", "subfirst"]))
-                r = {"index": g.index_template, "link": g.link_template, "subfirst": g.sub_first_template}[t]("o")
+                t = draw(st.sampled_from(["index", "link", "subfirst", "crossfirst"]))
+                r = {"index": g.index_template, "link": g.link_template, "subfirst": g.sub_first_template, "crossfirst": g.cross_first_template}[t]("o")
                 if r is None:
                     r = g.link_template("o")
                 cols.append((f"{s}.Select(lambda o: {r[0]})", None if r[1] is None else f"{s}.Select(lambda o: {r[1]})"))
